@@ -99,7 +99,7 @@ def run(ctx):
                 "Blake3-192/Rp64_256/Sha3-256, base/quadratic/cubic, 0/1/several FRI layers, with/without auxiliary segment): every length/count/"
                 "size field set to 0,1,2,max-1,max,orig+-1,2*orig,..., every byte value of every options/trace-info field, counts inside Merkle "
                 "path blobs, components resized consistently (prefix rewritten), nuq+tables, layers added/removed, trace metadata (valid proofs with metadata; contexts re-serialised with metadata of lengths 0..3*EB and 65535 filled with 00/FF/modulus/modulus+-1/random at every alignment), Lagrange frames, OOD frame "
-                "sizes, gkr lengths up to 2^60, foreign modulus, metadata, truncation, trailing bytes, single-bit/byte changes (exhaustive on the "
+                "sizes, the gkr vint64 length at every boundary of the encoding (…, 2^56+-1, 2^63+-1, 2^64-2, 2^64-1, 2^64-pos+-2) in every encoding length 1..9 incl. non-canonical forms, foreign modulus, metadata, truncation, trailing bytes, single-bit/byte changes (exhaustive on the "
                 "smallest proof in thorough), perturbed public inputs; model answers a SET (one run per first failing value-dependent check and per "
                 "position-count mismatch): impl must be in it, and an impl panic requires an all-panic set.  O/Q/F/C/D = the typed parsers and "
                 "draw_integers called directly with AIR-side parameters independent of the bytes (admissible and inadmissible): exact equality "
